@@ -56,7 +56,7 @@ def innermost_function(exc):
     return name
 
 
-def run_program(excutils, prog, flag0, kind):
+def run_program(excutils, prog, flag0, kind, post_mode='force'):
     """Compile the body program to real Python and execute it."""
     logger = FakeLogger()
     E1 = make_exc(kind, 1)
@@ -130,7 +130,19 @@ def run_program(excutils, prog, flag0, kind):
     # after the with statement: what the context object still holds (beyond the property's statement;
     # ExcHelpers models it as the code behaves: `saved` persists until force_reraise consumes it)
     post = None
-    if ctx_box:
+    second = None
+    if ctx_box and post_mode == 'reenter':
+        E5 = make_exc('plain', 5)
+        try:
+            try:
+                raise E5
+            except Plain:
+                with ctx_box[0]:
+                    pass
+            second = (0, False)
+        except BaseException as e:   # noqa
+            second = (getattr(e, 'vid', -1), e is E5)
+    elif ctx_box:
         try:
             ctx_box[0].force_reraise()
             post = ('none', False)
@@ -148,7 +160,7 @@ def run_program(excutils, prog, flag0, kind):
     # "the same object": also unchanged - its explicit cause (an exception in its own right: losing it is losing an
     # exception) and its arguments; display flags such as __suppress_context__ are not compared
     intact = (not same_object) or (propagated.__cause__ is entry_state[0] and propagated.args == entry_state[2])
-    return {'propagates': vid, 'logged': logger.errors, 'is_original_object': same_object, 'intact': intact, 'post': post,
+    return {'propagates': vid, 'logged': logger.errors, 'is_original_object': same_object, 'intact': intact, 'post': post, 'second': second,
             'innermost': origin, 'entry_innermost': entry, 'reraise_frames': reraises, 'type': type(propagated).__name__ if propagated is not None else None}
 
 
@@ -169,7 +181,7 @@ def run(ctx):
     outcomes = {}
     for rec in res.records:
         for kind in CLASSES:
-            got = run_program(excutils, rec['prog'], rec['flag0'], kind)
+            got = run_program(excutils, rec['prog'], rec['flag0'], kind, 'reenter' if (n % 2) else 'force')
             n += 1
             want_p = rec['propagates']
             problems = []
@@ -187,6 +199,8 @@ def run(ctx):
             if want_p == 1 and not rec['direct'] and body_completed and got['reraise_frames'] > 1:
                 # the traceback is the saved one plus ONE re-raise, not the one grown by earlier re-raises
                 problems.append('traceback-not-restored')
+            if got['second'] is not None and (got['second'][0] != rec['second'] or (rec['second'] == 5 and not got['second'][1])):
+                problems.append('second-use-of-the-context')
             outcomes[(want_p, rec['logged'])] = outcomes.get((want_p, rec['logged']), 0) + 1
             # use of the context object after the with statement is outside C09's statement: a mismatch with the
             # module (which keeps `saved` until force_reraise consumes it) is a beyond-property report
